@@ -87,6 +87,12 @@ def gen_obs_set(rng, nprng, count, lay=None, cov=None):
             o = b if o is None else o + b
         if cobs:
             o = o + sum((0.1 * (i + 1) * (k + 1)) * c for k, c in enumerate(cobs))
+        # derived observables whose central value is many orders of magnitude above (or below) their fluctuations
+        sh = rng.random()
+        if sh < 0.12:
+            o = o + rng.choice([1e12, -3e9, 1e6])
+        elif sh < 0.18:
+            o = 1e8 + 1e-4 * o
         out.append(o)
     return out
 
@@ -138,9 +144,14 @@ def diff(a, b, path='$'):
         if 'off' in a and 'd' in a and isinstance(a['d'], list) and len(a['d']) == len(b.get('d', [])):
             # the format stores fluctuation + (replica mean - central value) in one number: the stored
             # numbers, not the bare fluctuations, set the rounding scale
-            sc = max([abs(v) for v in a['d']] + [abs(a['off']), abs(a['r']), SCALE[0], 1e-300])   # scale of the samples of the structure
+            # (written number = d + off; the replica mean and the central value do not enter it, so the fluctuations of an
+            # observable with a huge central value come back as precisely as those of one with a small central value)
+            # The reader re-centres the stored numbers by their average, so the residual mean of the original fluctuations
+            # (rounding residue of the original mean, ~ulp of the samples / sqrt(N)) moves from the fluctuations to the replica mean.
+            sc = max([abs(v) for v in a['d']] + [abs(a['off']), 1e-300])
+            resid = abs(sum(a['d']) / max(1, len(a['d'])))
             for i, (u, v) in enumerate(zip(a['d'], b['d'])):
-                if not close(u, v, rtol=4e-15, scale=sc):
+                if abs(u - v) > 4e-15 * max(1.0, len(a['d']) / 16.0) * sc + 2.0 * resid:
                     return '%s.d[%d]: %r vs %r (scale of stored numbers %r)' % (path, i, u, v, sc)
             if not close(a['r'], b['r'], rtol=4e-15, scale=max(abs(a['r']), sc)):
                 return '%s.r: %r vs %r' % (path, a['r'], b['r'])
